@@ -152,7 +152,7 @@ func TestC18(t *testing.T) {
 	nSame := r.N(600, 6000)
 	nReal := r.N(400, 4000)
 	nSleepB := r.N(1500, 15000)
-	nSleepR := r.N(600, 6000)
+	nSleepR := r.N(1500, 8000)
 	total := nDet + nSame + nReal + nSleepB + nSleepR
 	r.Each(t, total, 0, nil, func(t *testing.T, c *rt.Case) {
 		rng := c.Rand()
